@@ -101,7 +101,21 @@ func runC14(res *lib.Result, tier string, seed int64, args []string) error {
 			rest := lines[at:]
 			// every third time the cursor line is also the LAST line of the block: the closing keyword
 			// ('end', 'until …', 'else', 'elseif …') follows on the same line
-			if at < len(lines) && r.Chance(1, 3) {
+			// the cursor inside the condition of `until`: the locals of the repeat body are visible there
+			untilMode := false
+			if at < len(lines) && strings.HasPrefix(strings.TrimSpace(lines[at]), "until ") && r.Chance(1, 2) {
+				untilMode = true
+				ui := lines[at][:len(lines[at])-len(strings.TrimLeft(lines[at], " "))]
+				ins = ui + "until " + prefix
+				tail = ""
+				nl = append(nl, ins)
+				rest = lines[at+1:]
+				res.Dist("cursor.in-until-condition")
+				ins2 := ins
+				ins = ""
+				_ = ins2
+			}
+			if !untilMode && at < len(lines) && r.Chance(1, 3) {
 				t := strings.TrimSpace(lines[at])
 				if t == "end" || strings.HasPrefix(t, "until ") || t == "else" || strings.HasPrefix(t, "elseif ") || strings.HasPrefix(t, "end)") {
 					nl = append(nl, ins+tail+" "+t)
@@ -110,7 +124,10 @@ func runC14(res *lib.Result, tier string, seed int64, args []string) error {
 					ins = ""
 				}
 			}
-			if ins != "" {
+			if untilMode {
+				ui := lines[at][:len(lines[at])-len(strings.TrimLeft(lines[at], " "))]
+				ins = ui + "until " + prefix
+			} else if ins != "" {
 				nl = append(nl, ins+tail)
 			} else {
 				ins = indent + ctx[0] + prefix
